@@ -11,6 +11,7 @@ from pymtl3.passes.backends.verilog.translation.structural.VStructuralTranslator
 )
 from pymtl3.passes.backends.verilog.util.utility import make_indent
 from pymtl3.passes.backends.verilog.VerilogPlaceholder import VerilogPlaceholder
+from pymtl3.passes.rtlir.RTLIRPass import RTLIRPass
 
 from .YosysStructuralTranslatorL3 import YosysStructuralTranslatorL3
 
@@ -136,7 +137,7 @@ class YosysStructuralTranslatorL4(
 
   def rtlir_tr_subcomp_decl( s, m, c_id, c_rtype, c_array_type, port_conns, ifc_conns ):
 
-    def _subcomp_port_gen( c_name, c_id, n_dim, port_decls ):
+    def _subcomp_port_gen( obj, c_id, n_dim, port_decls ):
       p_wire_tplt = "logic {packed_type: <8} {id_};"
       p_conn_tplt = ".{port_id: <15}( {port_wire_id} )"
       template = \
@@ -149,6 +150,26 @@ class YosysStructuralTranslatorL4(
   );\
 """
       if not n_dim:
+        # `obj` is this element of the (array of) sub-component(s): the name
+        # of the instantiated module is derived from the element itself.
+        # Check to see if explicit_module_name is present
+        from pymtl3.passes.backends.verilog.translation.VerilogTranslationPass import (
+            VerilogTranslationPass,
+        )
+        if obj.has_metadata( VerilogTranslationPass.explicit_module_name ):
+          subcomp_explicit_name = obj.get_metadata( VerilogTranslationPass.explicit_module_name )
+        else:
+          subcomp_explicit_name = ''
+
+        if isinstance(obj, VerilogPlaceholder):
+          c_name = obj.get_metadata( s._placeholder_pass.placeholder_config ).pickled_top_module
+        elif subcomp_explicit_name:
+          # If someone sets explicit_module_name, we need to honor that config
+          c_name = subcomp_explicit_name
+        else:
+          obj_c_rtype = s.tr_top.get_metadata( RTLIRPass.rtlir_getter ).get_rtlir( obj )
+          c_name = s.rtlir_tr_component_unique_name( obj_c_rtype )
+
         p_wires, p_conns = [], []
         for port in port_decls:
           msb, _id = port["msb"], port["id_"]
@@ -166,7 +187,7 @@ class YosysStructuralTranslatorL4(
       else:
         ret = []
         for i in range( n_dim[0] ):
-          ret += _subcomp_port_gen( c_name, c_id+"__"+str(i), n_dim[1:], port_decls )
+          ret += _subcomp_port_gen( obj[i], c_id+"__"+str(i), n_dim[1:], port_decls )
         return ret
 
     def _subcomp_conn_gen( d, cpid, _pid, cwid, _wid, idx, n_dim, c_idx = "" ):
@@ -207,34 +228,11 @@ class YosysStructuralTranslatorL4(
 
     c_n_dim = c_array_type["n_dim"]
 
-    # Get a copy of the object
+    # The sub-component, or the (nested) list of sub-components
     obj = getattr(m, c_id)
-    while isinstance(obj, list):
-      obj = obj[0]
-
-    # Check to see if explicit_module_name is present
-    from pymtl3.passes.backends.verilog.translation.VerilogTranslationPass import (
-        VerilogTranslationPass,
-    )
-    if obj.has_metadata( VerilogTranslationPass.explicit_module_name ):
-      subcomp_explicit_name = obj.get_metadata( VerilogTranslationPass.explicit_module_name )
-    else:
-      subcomp_explicit_name = ''
 
     # Add sub-component info to port declarations and generate declarations
-    if isinstance(obj, VerilogPlaceholder):
-      c_name = obj.get_metadata( s._placeholder_pass.placeholder_config ).pickled_top_module
-    elif subcomp_explicit_name:
-      # If someone sets explicit_module_name, we need to honor that config
-      c_name = subcomp_explicit_name
-    else:
-      c_name = s.rtlir_tr_component_unique_name( c_rtype )
-
-    # c_name = s.rtlir_tr_component_unique_name( c_rtype )
-    # if c_name == 'IntDivPRTL_noparam':
-    #   import pdb;pdb.set_trace()
-
-    port_decls = _subcomp_port_gen( c_name, c_id, c_n_dim, _port_decls )
+    port_decls = _subcomp_port_gen( obj, c_id, c_n_dim, _port_decls )
 
     # Add sub-component info to wire declarations and generate declarations
     for wire in _wire_decls:
